@@ -105,7 +105,8 @@ View == <<w, lost, ndmg, post>>
 
 (***************************** the property ***********************************)
 (* every record accepted by Write is on disk or in the buffer, once, in write order,   *)
-(* except those that were still buffered when the process died                         *)
+(* except those that were still buffered when the process died and those whose file    *)
+(* the total size limit removed                                                        *)
 RECURSIVE Upto(_, _)
 Upto(a, b) == IF a > b THEN <<>> ELSE <<a>> \o Upto(a + 1, b)
 Durable == ndmg = 0 =>
